@@ -126,7 +126,7 @@ theorem castTo_spec (x : FArr α) (T : DimSet) (hx : WF x) (hT : (letters T).Nod
     simp only [hall, Bool.not_true, Bool.false_eq_true, if_false, Gen.castIn, Gen.castOut]
     rw [einsum1_eq_some _ _ _ (einsum1Ok_of x hx out hout_nd hout_sub)]
     simp only [Option.bind_eq_bind, Option.bind_some]
-    exact FArr.mk?_eq_some _ _ hwshape
+    exact FArr.mk?_eq_some _ _ hT hwshape
   · intro e hv
     show (v.newaxisIndex keep).get (List.zipWith (fun i n => if n = 0 then 0 else i % n)
       ((letters T).map e) (v.newaxisIndex keep).shape) = _
@@ -171,7 +171,7 @@ theorem pow_arr_spec (powf : α → α → α) (x y : FArr α) (hx : WF x) (hy :
     simp only [Option.bind_eq_bind, Option.bind_some, hany, Bool.false_eq_true, if_false]
     rw [hp1]
     simp only [Option.bind_some, ND.zipWith?, hshape, if_true]
-    exact FArr.mk?_eq_some _ _ (by simpa [hshape] using hx.2)
+    exact FArr.mk?_eq_some _ _ hx.1 (by simpa [hshape] using hx.2)
   · intro e hv
     show powf (x.values.get (x.letters.map e)) (p.values.get (x.letters.map e)) = _
     have hpl : p.letters = x.letters := by unfold FArr.letters; rw [hp2]
